@@ -286,6 +286,7 @@ func (m *mapGenerator) Decoder(g Generator, spec *compile.MapSpec) (string, erro
 
 		<$sr := newVar "sr">
 		<$mh := newVar "mh">
+		<$n := newVar "n">
 		<$o := newVar "o">
 		<$k := newVar "k">
 		<$v := newVar "v">
@@ -308,10 +309,16 @@ func (m *mapGenerator) Decoder(g Generator, spec *compile.MapSpec) (string, erro
 				return nil, <$sr>.ReadMapEnd()
 			}
 
+			// The length comes from the wire: cap the pre-allocation so that a
+			// few bytes cannot make us allocate an arbitrary amount of memory.
+			<$n> := <$mh>.Length
+			if <$n> > 65536 {
+				<$n> = 65536
+			}
 			<if isHashable .Spec.KeySpec>
-				<$o> := make(<$mapType>, <$mh>.Length)
+				<$o> := make(<$mapType>, <$n>)
 			<else>
-				<$o> := make(<$mapType>, 0, <$mh>.Length)
+				<$o> := make(<$mapType>, 0, <$n>)
 			<end ->
 			for i := 0; i <lessthan> <$mh>.Length; i++ {
 				<$k>, err := <decode .Spec.KeySpec $sr>
